@@ -16,7 +16,7 @@ const PropertyInfo kInfo = {
     "tape -> datagram <= 512 B in an exact-size heap buffer (ASan guards both ends) + 12-byte transaction id. "
     "mode raw (1/4): the record bytes are the datagram (optionally with type forced to 0x0101 / length made exact); "
     "mode structured: type {0x0101, 0x0111, 0x0001, one bit off, random}, magic cookie {right, wrong}, declared length "
-    "{exact, -4, -k, +4, +k, arbitrary}, datagram {as built, truncated, trailing bytes}, transaction id {match, one bit off, random}, "
+    "{exact, the (padded or unpadded) end of an earlier attribute, -4, -k, +4, +k, arbitrary}, datagram {as built, truncated, trailing bytes}, transaction id {match, one bit off, random}, "
     "one record per attribute: unknown comprehension-optional with length 0..23 and random padding, MAPPED-ADDRESS, XOR-MAPPED-ADDRESS "
     "(IPv4/IPv6, boundary ports/addresses), conflicting address, bad family, truncated / over-long address value, "
     "comprehension-required unknown, unpadded odd-length attribute. "
@@ -211,9 +211,13 @@ Built build_structured(Ctx& c, bool allow_dev) {
     std::vector<std::uint8_t> body;
     bool any_addr = false;
     std::string attrs;
+    std::vector<std::pair<std::size_t, std::size_t>> attr_ends;  // [start, padded end) of every attribute written
+    std::size_t attr_start_mark = 0;
     for (std::size_t i = 0; i < t.nrec() && i < 24; ++i) {
         Rec r = t.r(i);
         Prng ap(r.seed());
+        if (body.size() > attr_start_mark) attr_ends.push_back({attr_start_mark, body.size()});
+        attr_start_mark = body.size();
         unsigned kind = kKindTable[r.op() % 16];
         bool zero_pad = r.a(3) & 1;
         switch (kind) {
@@ -286,6 +290,7 @@ Built build_structured(Ctx& c, bool allow_dev) {
         }
         if (body.size() > 480) break;
     }
+    if (body.size() > attr_start_mark) attr_ends.push_back({attr_start_mark, body.size()});
     if (!any_addr) canonical = false;
     c.note("attrs=[%s]", attrs.c_str());
 
@@ -293,6 +298,14 @@ Built build_structured(Ctx& c, bool allow_dev) {
     std::size_t declared = body.size();
     if (allow_dev) {
         switch (t.h(6) % 8) {
+            case 2: {  // the message ends at the end of one of its attributes (padded, or at the unpadded end of its value): what follows is trailing datagram bytes that look like attributes
+                if (attr_ends.size() < 2) break;
+                auto [st, en] = attr_ends[t.h(7) % (attr_ends.size() - 1)];
+                std::size_t unpadded = st + 4 + be16(body.data() + st + 2);
+                declared = (t.h(8) & 1) && unpadded <= en ? unpadded : en;
+                c.label("declared_ends_at_attribute_boundary");
+                break;
+            }
             case 3: declared = body.size() >= 4 ? body.size() - 4 : 0; break;
             case 4: { std::size_t k = 1 + t.h(7) % 8; declared = body.size() >= k ? body.size() - k : 0; break; }
             case 5: declared = body.size() + 4; break;
